@@ -37,8 +37,8 @@ def main():
     t0 = time.time()
     if REPLAY:
         ok = True
-        for il, rs in (("0", "0"), ("0.5", "0"), ("0.5", "0.3"), ("0", "1")):
-            p = subprocess.run([BIN, "c06replay", "-file", REPLAY, "-interleave", il, "-restart", rs, "-seed", str(SEED)], env=dict(os.environ, GOGC="1", GOMAXPROCS="2"))
+        for il, rs, cr in (("0", "0", "0"), ("0.5", "0", "0"), ("0.5", "0.3", "0"), ("0", "1", "0"), ("0.3", "0.2", "0.1")):
+            p = subprocess.run([BIN, "c06replay", "-file", REPLAY, "-interleave", il, "-restart", rs, "-crash", cr, "-seed", str(SEED)], env=dict(os.environ, GOGC="1", GOMAXPROCS="2"))
             ok = ok and p.returncode == 0
         if not ok:
             print("VIOLATION property=C06 replay=%s" % os.path.abspath(REPLAY))
@@ -74,7 +74,7 @@ def main():
             print("NOTE: clock-shifted replay binary could not be built, process B runs with the normal clock: " + p.stdout[-300:])
     else:
         print("NOTE: time.Now overlay could not be prepared, process B runs with the normal clock: " + ov.stdout[-300:])
-    rcs = run_shards([binB, "c06replay", "-seed", str(SEED), "-n", str(n), "-dir", outdir, "-suffix", "B", "-interleave", "0.4", "-restart", "0.12"], envB, os.path.join(outdir, "replayB"), wd)
+    rcs = run_shards([binB, "c06replay", "-seed", str(SEED), "-n", str(n), "-dir", outdir, "-suffix", "B", "-interleave", "0.4", "-restart", "0.12", "-crash", "0.03"], envB, os.path.join(outdir, "replayB"), wd)
     if any(rcs):
         inconclusive.append("a replay-B worker exited with %s" % [r for r in rcs if r])
     suffixes = ["B"]
@@ -88,7 +88,7 @@ def main():
             inconclusive.append("race build failed: " + p.stdout[-400:])
         else:
             envC = dict(base_env, GOMAXPROCS="4", GORACE="halt_on_error=0 log_path=%s" % os.path.join(outdir, "race"))
-            rcs = run_shards([racebin, "c06replay", "-seed", str(SEED + 1000), "-n", str(n), "-dir", outdir, "-suffix", "C", "-interleave", "0.3", "-restart", "0.05"], envC, os.path.join(outdir, "replayC"), wd)
+            rcs = run_shards([racebin, "c06replay", "-seed", str(SEED + 1000), "-n", str(n), "-dir", outdir, "-suffix", "C", "-interleave", "0.3", "-restart", "0.05", "-crash", "0.02"], envC, os.path.join(outdir, "replayC"), wd)
             if any(rcs):
                 inconclusive.append("a replay-C (race) worker exited with %s" % [r for r in rcs if r])
             suffixes.append("C")
@@ -113,6 +113,7 @@ def main():
         print("NOTE: known_findings.json unreadable: %s" % e)
     known_hits = {}
     known_count = [0]
+    stats = {}
     evaluations = 0
     sigs = set()
     samples = []
@@ -137,6 +138,12 @@ def main():
                 continue
             dig = json.load(open(df))
             evaluations += 1
+            for chd in dig:
+                for st in chd[-1:]:
+                    if st.get("op") == "stats":
+                        m = re.findall(r"(\w+)=(\d+)", st.get("i", ""))
+                        for kk, vv in m:
+                            stats[kk] = stats.get(kk, 0) + int(vv)
             for ci, ch in enumerate(rec):
                 out = dig[ci] if ci < len(dig) else []
                 for i, op in enumerate(ch):
@@ -182,7 +189,7 @@ def main():
             "evaluations": evaluations,
             "distinct_nontrivial": len(nontriv),
             "rule": "history = one generated workload (dedicated generator X06 maximising provers / gauges / access-map ids / form shuffles per block, plus the generators of every other property except C11 (its contract family calls the wasm plug-in boundary directly, outside ABCI) and C20 in record-only mode) recorded as genesis + headers + signed tx bytes; "
-                    "evaluation = one re-execution in an independent OS process (B: GOMAXPROCS=2, GOGC=1, wall clock shifted by +98 days through a time.Now overlay, serialised CheckTx/Recheck/Query/Simulate calls interleaved with probability 0.4 between consensus calls, the recorded simulate-only transactions (feed update + purchase in one transaction, never delivered) executed, and with probability 0.12 per Commit the node restarted, i.e. a new application instance opened on the same database; thorough adds C: race-detector build) compared step by step with process A on AppHash, tx code/codespace/gas/data and the ordered event lists of BeginBlock/DeliverTx/EndBlock; "
+                    "evaluation = one re-execution in an independent OS process (B: GOMAXPROCS=2, GOGC=1, wall clock shifted by +98 days through a time.Now overlay, serialised CheckTx/Recheck/Query/Simulate calls interleaved with probability 0.4 between consensus calls, the recorded simulate-only transactions (feed update + purchase in one transaction, never delivered) executed, with probability 0.12 per Commit the node restarted (a new application instance opened on the same database), and with probability 0.03 per in-block call the node crashed, i.e. the open block was lost and executed again from BeginBlock by a new instance; thorough adds C: race-detector build) compared step by step with process A on AppHash, tx code/codespace/gas/data and the ordered event lists of BeginBlock/DeliverTx/EndBlock; "
                     "non-trivial = distinct (source, message-type set) histories that paid >=3 provers in one reward block or used >=6 message types",
             "samples": samples or [{"note": "none"}],
             "histories": n,
@@ -196,6 +203,8 @@ def main():
             "inconclusive": inconclusive,
             "known_findings_reobserved": sorted(s for s in known_hits if s in known),
             "known_finding_steps": known_count[0],
+            "node_restarts_in_reexecutions": stats.get("restarts", 0),
+            "mid_block_crashes_in_reexecutions": stats.get("crashes", 0),
         },
         "assumptions": [
             "Tendermint 0.34's local ABCI client serialises all connections, so truly concurrent ABCI calls are not generated; the legitimate schedule dimension is the order of serialised calls plus process-level differences",
